@@ -63,7 +63,7 @@ package did
 //@   // one key, one DID: a secp256k1 identifier yields a key only in the compressed form (33 bytes) that FromPubKey produces
 //@   ensures [C16] canonical: result1 == nil && d.code == Secp256k1 ==> len(d.bytes) == len(uvarint(d.code)) + 33
 //@   ensures [C09,C16] total: true
-//@   assigns [C20] nothing
+//@   assigns [C09,C16,C20] nothing
 //@ // key extraction: the unmarshallers must return a key or an error for every byte string
 //@ func ecdsaPubKeyUnmarshaler$1
 //@   ensures [C09,C16] total: true
